@@ -32,6 +32,7 @@ func main() {
 			}
 			for _, k := range []string{"tree", "ht2"} {
 				c = append(c, explore.Config{Name: "rib " + k, MaxDepth: d["rib"], MaxDev: -1})
+				c = append(c, explore.Config{Name: "rib2o " + k, MaxDepth: d["rib"] + 2, MaxDev: -1})
 			}
 			for _, k := range []string{"1", "2"} {
 				c = append(c, explore.Config{Name: "cs " + k, MaxDepth: d["cs"], MaxDev: -1})
